@@ -133,6 +133,242 @@ fn core_scenario(a: &[&str]) -> String {
 pub fn run(op: &str, a: &[&str]) -> Option<String> {
     Some(match op {
         "core" => core_scenario(a),
+        "pc" => pc_scenario(a),
         _ => return None,
     })
+}
+
+// ---- PeerCrypto scenarios ----------------------------------------------------------------------
+use crate::crypto::{verif as hcm, verif_init as hi, Crypto, MessageResult, Payload, PeerCrypto};
+use crate::error::Error;
+use std::collections::HashMap;
+use std::io::Read;
+
+#[derive(Debug, PartialEq)]
+pub struct VPayload(pub Vec<u8>);
+
+impl Payload for VPayload {
+    fn write_to(&self, buffer: &mut MsgBuffer) {
+        let n = self.0.len();
+        buffer.buffer()[..n].copy_from_slice(&self.0);
+        buffer.set_length(n)
+    }
+    fn read_from<R: Read>(mut r: R) -> Result<Self, Error> {
+        let mut data = Vec::new();
+        r.read_to_end(&mut data).map_err(|_| Error::Parse("Buffer too small"))?;
+        Ok(VPayload(data))
+    }
+}
+
+pub fn key_seed(k: u8) -> Vec<u8> {
+    (0..32).map(|i| if i == 0 { k } else { i as u8 }).collect()
+}
+
+pub fn parse_algos(spec: &str) -> (bool, Vec<(u8, f32)>) {
+    let (pl, list) = spec.split_once('|').unwrap();
+    let mut v = vec![];
+    if !list.is_empty() && list != "-" {
+        for e in list.split(',') {
+            let (id, sp) = e.split_once(':').unwrap();
+            v.push((num::<u8>(id), f32::from_bits(u32::from_str_radix(sp, 16).unwrap())));
+        }
+    }
+    (pl == "p", v)
+}
+
+pub fn describe(d: &[u8]) -> String {
+    if d.is_empty() {
+        return ">Z".into();
+    }
+    if d[0] == 0xff {
+        // 0xff, salt(4), keyhash(4), then TLV parts; the stage part comes first
+        if d.len() > 12 && d[9] == 1 {
+            return format!(">I{}", d[12]);
+        }
+        return ">I?".into();
+    }
+    format!(">D{}", d.len())
+}
+
+fn result_str(r: Result<MessageResult<VPayload>, Error>, buf: &MsgBuffer) -> String {
+    match r {
+        Ok(MessageResult::Message(t)) => format!("Msg{}:{}", t, hex(buf.message())),
+        Ok(MessageResult::Initialized(p)) => format!("Init:{}", hex(&p.0)),
+        Ok(MessageResult::InitializedWithReply(p)) => format!("InitR:{}", hex(&p.0)),
+        Ok(MessageResult::Reply) => "Reply".into(),
+        Ok(MessageResult::None) => "None".into(),
+        Err(Error::CryptoInitFatal(_)) => "fatal".into(),
+        Err(_) => "err".into(),
+    }
+}
+
+fn pc_scenario(a: &[&str]) -> String {
+    hi::clear_salts();
+    let mut objs: HashMap<u32, PeerCrypto<VPayload>> = HashMap::new();
+    let mut sent: Vec<Vec<u8>> = vec![];
+    let mut meta: Vec<(u32, char)> = vec![];
+    let mut out: Vec<String> = vec![];
+    fn kind_of(is_send: bool, d: &[u8]) -> char {
+        if d.is_empty() {
+            'z'
+        } else if d[0] == 0xff {
+            'i'
+        } else if is_send {
+            'd'
+        } else {
+            'r'
+        }
+    }
+    for tok in a {
+        let p: Vec<&str> = tok.split('.').collect();
+        let op = p[0];
+        let res = std::panic::catch_unwind(std::panic::AssertUnwindSafe(|| -> String {
+            match op {
+                "O" => {
+                    let id: u32 = num(p[1]);
+                    let node: u8 = num(p[2]);
+                    let salt = unhex(p[3]);
+                    let key: u8 = num(p[4]);
+                    let trusted: Vec<Vec<u8>> =
+                        if p[5] == "-" { vec![] } else { p[5].split('+').map(|k| hcm::seed_public_key(&key_seed(num(k)))).collect() };
+                    let (plain, speeds) = parse_algos(p[6]);
+                    let payload = unhex(p[7]);
+                    let crypto = hcm::crypto_with([node; 16], &key_seed(key), &trusted, &speeds, plain);
+                    hi::push_salt([salt[0], salt[1], salt[2], salt[3]]);
+                    objs.insert(id, crypto.peer_instance(VPayload(payload)));
+                    "-".into()
+                }
+                "I" => {
+                    let o = objs.get_mut(&num(p[1])).unwrap();
+                    let mut buf = MsgBuffer::new(100);
+                    match o.initialize(&mut buf) {
+                        Ok(()) => {
+                            let d = buf.message().to_vec();
+                            let s = describe(&d);
+                            meta.push((num(p[1]), kind_of(false, &d)));
+                            sent.push(d);
+                            format!("ok{}", s)
+                        }
+                        Err(_) => "err".into(),
+                    }
+                }
+                "D" | "F" | "T" | "R" | "L" => {
+                    let o = objs.get_mut(&num(p[1])).unwrap();
+                    let data: Vec<u8> = match op {
+                        "D" => {
+                            let k: usize = num(p[2]);
+                            if k >= sent.len() {
+                                return "-".into();
+                            }
+                            sent[k].clone()
+                        }
+                        "F" => {
+                            let k: usize = num(p[2]);
+                            let pos: usize = num(p[3]);
+                            if k >= sent.len() || pos >= sent[k].len() {
+                                return "-".into();
+                            }
+                            let mut d = sent[k].clone();
+                            d[pos] ^= 1 << num::<u32>(p[4]);
+                            d
+                        }
+                        "T" => {
+                            let k: usize = num(p[2]);
+                            if k >= sent.len() {
+                                return "-".into();
+                            }
+                            let mut d = sent[k].clone();
+                            d.truncate(num(p[3]));
+                            d
+                        }
+                        "L" => {
+                            let src: u32 = num(p[2]);
+                            let kind: char = p[3].chars().next().unwrap();
+                            let n: usize = num(p[4]);
+                            let idx: Vec<usize> = (0..sent.len()).rev().filter(|&i| meta[i] == (src, kind)).collect();
+                            if n >= idx.len() {
+                                return "-".into();
+                            }
+                            sent[idx[n]].clone()
+                        }
+                        _ => unhex(p[2]),
+                    };
+                    let mut buf = MsgBuffer::new(100);
+                    buf.clone_from(&data);
+                    let r = o.handle_message(&mut buf);
+                    let reply = matches!(r, Ok(MessageResult::Reply) | Ok(MessageResult::InitializedWithReply(_)));
+                    let mut s = result_str(r, &buf);
+                    if reply {
+                        let d = buf.message().to_vec();
+                        s.push_str(&describe(&d));
+                        meta.push((num(p[1]), kind_of(false, &d)));
+                        sent.push(d);
+                    }
+                    s
+                }
+                "E" => {
+                    let o = objs.get_mut(&num(p[1])).unwrap();
+                    let mut buf = MsgBuffer::new(100);
+                    let r = o.every_second(&mut buf);
+                    let reply = matches!(r, Ok(MessageResult::Reply));
+                    let mut s = result_str(r, &buf);
+                    if reply {
+                        let d = buf.message().to_vec();
+                        s.push_str(&describe(&d));
+                        meta.push((num(p[1]), kind_of(false, &d)));
+                        sent.push(d);
+                    }
+                    s
+                }
+                "S" => {
+                    let o = objs.get_mut(&num(p[1])).unwrap();
+                    let mut buf = MsgBuffer::new(100);
+                    buf.clone_from(&unhex(p[3]));
+                    match o.send_message(num(p[2]), &mut buf) {
+                        Ok(()) => {
+                            let d = buf.message().to_vec();
+                            let s = describe(&d);
+                            meta.push((num(p[1]), kind_of(true, &d)));
+                            sent.push(d);
+                            format!("ok{}", s)
+                        }
+                        Err(_) => "err".into(),
+                    }
+                }
+                "C" => {
+                    // set the rotation counter so that the next every_second cycles
+                    let o = objs.get_mut(&num(p[1])).unwrap();
+                    hcm::pc_set_counter(o, num(p[2]));
+                    "-".into()
+                }
+                "X" => {
+                    objs.remove(&num(p[1]));
+                    "-".into()
+                }
+                "Q" => {
+                    let o = objs.get(&num(p[1])).unwrap();
+                    let d = hcm::pc_dump(o);
+                    format!(
+                        "q:init={}/{}/{}/{}/{};rot={};plain={};core={};cnt={};alg={}",
+                        d.init_stage.map(|s| s.to_string()).unwrap_or("-".into()),
+                        d.init_retries,
+                        d.init_close,
+                        d.init_has_core as u8,
+                        d.init_has_ecdh as u8,
+                        d.rot.map(|r| format!("{}/{}/{}/{}/{}", r.0, r.1 as u8, r.2 as u8, r.3, r.4 as u8)).unwrap_or("-".into()),
+                        d.unencrypted as u8,
+                        d.core.map(|c| format!("{}/{}", c.0, c.1 as u8)).unwrap_or("-".into()),
+                        d.counter,
+                        o.algorithm_name()
+                    )
+                }
+                _ => panic!("bad pc op"),
+            }
+        }));
+        out.push(match res {
+            Ok(s) => s,
+            Err(_) => "panic".into(),
+        });
+    }
+    out.join(" ")
 }
